@@ -92,16 +92,24 @@ class P(Prop):
         (M, "TV.C13.validIds_iff", "the valid id assignments are exactly the 2+6+6+24 permutation layouts"),
         (M, "TV.C13.row_roundtrip", "a data line written by writeToFile (any valid layout, any feature columns, separator not a number character, lossless time format avoiding the separator) is read back by __readFromCsv as the same observation"),
         (M, "TV.C13.csv_file_roundtrip", "whole file: writeToFile then readFromCsv(h=0) returns the same observations in the same order; readFromCsv(h=1) loses the first one (no header is ever written)"),
+        (M, "TV.C13.csv_header_block_roundtrip", "reader side of h=1: a first line, comment lines, then the data lines are read as exactly the observations"),
         (M, "TV.C13.time_roundtrip", "readTimestamp(str(t)) gives back the fields named by a format of distinct full-width codes, for every stamp that fits the widths"),
+        (M, "TV.C13.time_roundtrip_suffix", "the same when text follows the printed stamp (the Z of a GPX <time>)"),
         (M, "TV.C13.time_roundtrip_full", "with the six calendar codes the calendar part is read back identically"),
         (M, "TV.C13.fits_of_wf", "every well-formed ObsTime before year 10000 fits the widths"),
         (M, "TV.C13.wkt_roundtrip", "parseWkt(track.toWKT()) returns the same vertices in the same order for every non-empty lattice track"),
         (M, "TV.C13.repr_value", "float(str(n/10^d)) has the value n/10^d (trailing zeros trimmed)"),
         (M, "TV.C13.network_row_roundtrip", "an edge line written by writeToCsv is split by csv.reader into its five fields and rebuilt by readLineAndAddToNetwork as the same edge"),
         (M, "TV.C13.net_file_roundtrip", "whole network file: h=1/header=1 returns all edges in order; h=0/header=0 returns them without the first"),
+        (M, "TV.C13.gpx_point_partial", "the lat/lon/ele numbers and the <time> text of a GPX track point are read back as written (scanner not covered)"),
+        (M, "TV.C13.written_precision_partial", "on the decimal lattice the printed coordinate and what float() reads denote the same number (format()'s rounding of arbitrary doubles not covered)"),
     ]
-    partial = []
-    open_statements = []
+    partial = ["gpx_point_partial: proves the number and timestamp texts of a track point round-trip; missing: the line scanner of __readFromGpx (modelled, correspondence only)",
+               "written_precision_partial: proves exact read-back on the 10^-d lattice; missing: Python's format()/float() rounding on arbitrary doubles (sampled: 'fix' stream, byte-for-byte file comparison, off-lattice tracks)"]
+    open_statements = ["gpx_file_roundtrip: readGpx (gpxBody rows) = rows for the whole scanner (state machine over lines) is not proved",
+                       "the string-level find/replace loops of ObsTime.__str__ and __precompileReadFmt are modelled on the tokenised format (codes recognised left to right); "
+                       "equivalence with the string algorithm for formats whose literals are not code letters is checked by correspondence only",
+                       "read_all feature columns are not modelled on the reader side (the writer never emits the header line that names them)"]
     modelled = ("TrackWriter.writeToFile (O list, sort, __printInOrder, float formats), TrackReader.__readFromCsv (data loop, header/comment "
                 "skipping, field extraction, no-data rule; read_all not modelled), ObsTime.__str__/__precompileReadFmt/readTimestamp/__fillMember "
                 "(tokenised format, no '*' wildcard), NetworkWriter.writeToCsv, NetworkReader.readFromFile + readLineAndAddToNetwork + "
@@ -514,8 +522,10 @@ class P(Prop):
             d = 10 if geo else 3
             naf = len(case.get("af_names", []))
             rows = ";".join(self.row_tok(r, case["q"], d, case["afs"][i] if naf else ()) for i, r in enumerate(case["rows"]))
-            return ["C13.csv %d %d %d %d %d %d %d %d %s %s %d %s" % (geo, ids["E"], ids["N"], ids["U"], ids["T"], ord(case["sep"]), case["h"],
-                                                                    case["hdrR"], hx(case["pfmt"]), hx(case["rfmt"]), naf, rows)]
+            names = ",".join(hx(n) for n in case.get("af_names", [])) or "_"
+            return ["C13.csv %d %d %d %d %d %d %d %d %s %s %d %s %s %s" % (geo, ids["E"], ids["N"], ids["U"], ids["T"], ord(case["sep"]), case["h"],
+                                                                          case["hdrR"], hx(case["pfmt"]), hx(case["rfmt"]), naf, rows,
+                                                                          hx(case["srid"]), names)]
         if k == "gpx":
             rows = ";".join(self.row_tok(r, case["q"], 8) for r in case["rows"])
             return ["C13.gpx %d %s %s %s" % (case["srid"] == "GEO", hx(case["rfmt"]), hx(str(case["tid"])), rows)]
